@@ -12,8 +12,9 @@ import (
 )
 
 type histoPair struct {
-	key string
-	val int64
+	key  string
+	val  int64
+	used bool
 }
 
 type HistoWriter struct {
@@ -65,8 +66,9 @@ func (s *HistoWriter) WriteForLine(line int, key string, val int64) {
 	}
 
 	s.items[line] = histoPair{
-		key: key,
-		val: val,
+		key:  key,
+		val:  val,
+		used: true,
 	}
 
 	if needsFullRefresh {
@@ -83,7 +85,7 @@ func (s *HistoWriter) UpdateTotal(total int64) {
 
 func (s *HistoWriter) fullRender() {
 	for idx, item := range s.items {
-		if item.val > 0 {
+		if item.used {
 			s.writeLine(idx, item.key, item.val)
 		}
 	}
